@@ -15,10 +15,18 @@ import (
 func (w *World) execKeyAlgebra(st *Step) {
 	idx := toInt(st.Args["key"]) % len(w.Pool.Keys)
 	key := w.Pool.Get(idx)
-	nonce := ""
+	// the same key material is published without nonce and with two different nonces: members other than the key
+	// material (the nonce only) must change the commitment, in whatever order the variants are evaluated
+	nonces := []string{"", w.nonceFor(w.step, "algebra-a", true), w.nonceFor(w.step, "algebra-b", true)}
 	if b, _ := st.Args["nonce"].(bool); b {
-		nonce = w.nonceFor(w.step, "algebra", true)
+		nonces[0], nonces[1] = nonces[1], nonces[0]
 	}
+	for _, nonce := range nonces {
+		w.keyAlgebraOne(idx, key, nonce)
+	}
+}
+
+func (w *World) keyAlgebraOne(idx int, key *Key, nonce string) {
 	refJWK := key.RefJWK(nonce)
 	lib, err := libJWK(key, nonce)
 	if err != nil {
@@ -35,11 +43,11 @@ func (w *World) execKeyAlgebra(st *Step) {
 		}
 		c, err := commitment.GetCommitment(lib, alg)
 		if err != nil || c != ref.Commitment(alg, refJWK) {
-			w.violate("C04/commitment", wit, "key %d: GetCommitment=%q err=%v, reference %q", idx, c, err, ref.Commitment(alg, refJWK))
+			w.violate("C04/commitment", wit, "key %d nonce %q: GetCommitment=%q err=%v, reference %q", idx, nonce, c, err, ref.Commitment(alg, refJWK))
 		}
 		cr, err := commitment.GetCommitmentFromRevealValue(rv)
 		if err != nil || cr != c {
-			w.violate("C04/commitment-from-reveal", wit, "key %d: GetCommitmentFromRevealValue(reveal)=%q err=%v, commitment %q", idx, cr, err, c)
+			w.violate("C04/commitment-from-reveal", wit, "key %d nonce %q: GetCommitmentFromRevealValue(reveal)=%q err=%v, commitment %q", idx, nonce, cr, err, c)
 		}
 		if c == rv {
 			w.violate("C04/commitment-equals-reveal", wit, "commitment equals reveal value")
